@@ -118,6 +118,24 @@ def other_config():
               "chartWeight": {"expon": [0.5]}, "noiseWeight": {"expon": [1.0]}, "noiseScale": 0.001, "timeWindowSize": [5, 20], "orderMargin": [0.0, 0.1]}}
 
 
+def variant_of(cfg):
+    """the same markets, agents and sessions with the fundamental correlations toggled and other endowments: whatever the
+    earlier run leaves behind in the process (caches, class-level state) must not leak into the next one"""
+    v = copy.deepcopy(cfg)
+    sim = v["simulation"]
+    pairs = sim.get("fundamentalCorrelations", {}).get("pairwise", [])
+    if pairs:
+        sim["fundamentalCorrelations"] = {"pairwise": []}
+    else:
+        vol = [n for n in sim["markets"] if isinstance(v.get(n), dict) and float(v[n].get("fundamentalVolatility", 0.0)) > 0.0
+               and "numMarkets" not in v[n] and "from" not in v[n]]
+        if len(vol) >= 2:
+            sim["fundamentalCorrelations"] = {"pairwise": [[vol[0], vol[1], 0.8]]}
+    for s in sim["sessions"]:
+        s["iterationSteps"] = min(int(s["iterationSteps"]), 12)
+    return v
+
+
 def main():
     job = json.load(open(sys.argv[1]))
     cfg, seed, mode = job["cfg"], job["seed"], job["mode"]
@@ -129,6 +147,10 @@ def main():
         [random.random() for _ in range(1000)]
         np.random.standard_normal(100)
         run_once(other_config(), 5, [])
+        try:
+            run_once(variant_of(cfg), seed + 1, [])
+        except Exception:  # noqa: BLE001 - the variant is only there to leave state behind
+            pass
         random.random()
     rec = []
     settings = copy.deepcopy(cfg)
